@@ -117,6 +117,7 @@ class Build:
         self.probe_error = None   # text when the probe does not build (the tree does not compile)
         self.gen_errors = {}      # generated file -> translator error
         self.model_error = None
+        self.model_failed_areas = []   # Extract_<area>.v / drv_<area>.ml that did not build
         self.deps = {}            # .v -> set of .v it depends on (direct)
 
     def cone(self, vfile):
@@ -205,6 +206,8 @@ def prelude(need_model=True, need_grits=False):
         os.makedirs(BIN, exist_ok=True)
         # 1. the Go probe, linked against /repo's working tree (build tag verif)
         write_if_changed(os.path.join(HARNESS, "go.sum"), open(os.path.join(REPO, "go.sum")).read())
+        gm = os.path.join(HARNESS, "go.mod")
+        write_if_changed(gm, re.sub(r"replace grits => \S+", "replace grits => " + REPO, open(gm).read()))
         rc, out = go_build(HARNESS, b.probe)
         if rc != 0:
             b.probe_error = out[-4000:]
@@ -285,7 +288,14 @@ def build_model(b):
     stamp = tree_hash(THEORIES, (".v",)) + tree_hash(ex, (".v", "registry.ml", "driver.ml", "build.sh")) + \
         sha("".join(open(f).read() for f in sorted(_glob.glob(os.path.join(ex, "drv_*.ml")))))
     sp = os.path.join(CACHE, "model.stamp")
+
+    def read_failed():
+        try:
+            b.model_failed_areas = open(b.model + ".failed").read().split()
+        except OSError:
+            b.model_failed_areas = []
     if os.path.exists(b.model) and os.path.exists(sp) and open(sp).read() == stamp:
+        read_failed()
         return
     rc, out, err = run(["bash", os.path.join(ex, "build.sh"), b.model], timeout=1800)
     if rc != 0:
@@ -298,6 +308,9 @@ def build_model(b):
     else:
         with open(sp, "w") as f:
             f.write(stamp)
+        read_failed()
+        if b.model_failed_areas:
+            log("[prelude] model areas that did not build: %s" % " ".join(b.model_failed_areas))
 
 
 # ----------------------------------------------------------------------------------------
@@ -421,6 +434,34 @@ def proof_status(b, prop_v):
         if bad_ax:
             ps.broken[prop_v] = "theorem depends on non-standard axioms: " + ", ".join(bad_ax)
     return ps
+
+
+def coqchk_once(timeout=3600):
+    """thorough tier: re-check every compiled .vo of the development (and everything it depends on)
+    with the independent checker coqchk, once per state of coq/theories; returns the report text
+    (axioms as coqchk lists them).  Cached on disk by content hash."""
+    stamp = tree_hash(THEORIES, (".v",))
+    cf = os.path.join(CACHE, "coqchk-%s.txt" % stamp[:16])
+    if os.path.exists(cf):
+        return open(cf).read()
+    mods = []
+    for d, _, files in os.walk(THEORIES):
+        for fn in sorted(files):
+            if fn.endswith(".vo"):
+                rel = os.path.relpath(os.path.join(d, fn), THEORIES)[:-3]
+                if rel.startswith("diag"):
+                    continue
+                mods.append("Grits." + rel.replace(os.sep, "."))
+    with Lock("coqchk.lock"):
+        if os.path.exists(cf):
+            return open(cf).read()
+        t0 = time.time()
+        rc, out, err = run(["coqchk", "-silent", "-o", "-Q", THEORIES, "Grits"] + sorted(mods), cwd=COQ, timeout=timeout)
+        txt = "coqchk rc=%d in %.0fs over %d modules\n%s\n%s" % (rc, time.time() - t0, len(mods), out[-6000:], err[-2000:])
+        if rc in (0,):
+            with open(cf, "w") as f:
+                f.write(txt)
+        return txt
 
 
 # ----------------------------------------------------------------------------------------
